@@ -37,13 +37,13 @@ def run_e2e(args):
     out = []
     for a in args:
         root = a["root"]
-        ds, written = I.build_dataset(root, a["fmt"], a["comp"], a["eps"], a["plan"])
+        ds, written = I.build_dataset(root, a["fmt"], a["comp"], a["eps"], a["plan"], hashes=tuple(a.get("hashes", ("sha256",))))
         ds = Dataset(root)
-        enum = I.enumeration(ds)
-        rec = {"case": {k: a[k] for k in a if k != "root"}, "written": written,
+        enum, enum_err = I.safe_enumeration(ds)
+        rec = {"case": {k: a[k] for k in a if k != "root"}, "written": written, "enum_error": enum_err,
                "enumerated": {s: [x for sh in enum.get(s, []) for x in sh] for s in written}, "runs": []}
         for split in [s for s in written if written[s]]:
-            nsh = len(enum[split])
+            nsh = len(enum.get(split, [])) or 1
             for iface in I.IFACES:
                 if not I.supports(iface, a["fmt"], a["comp"]):
                     continue
@@ -62,7 +62,7 @@ def run_e2e(args):
 def e2e_cases(ctx):
     rng = ctx.rng("c02-e2e")
     cases = []
-    n = ctx.pick(5, 24)
+    n = ctx.pick(9, 36)
     for i in range(n):
         fmt = ["fb", "npz", "tfrec"][i % 3]
         comp = rng.choice({"fb": ["", "LZ4", "GZIP", "ZSTD"], "npz": ["", "ZIP"], "tfrec": ["", "GZIP"]}[fmt])
@@ -77,7 +77,9 @@ def e2e_cases(ctx):
         configs = [(0, 1), (0, -1), (1, 1), (2, 2), (big, -2), (rng.choice([3, 7]), rng.choice([1, 2, 3]))]
         if not ctx.thorough:
             configs = [configs[0], configs[2 + i % 2], configs[4]]
-        cases.append({"root": str(ctx.scratch / f"e2e{i}"), "fmt": fmt, "comp": comp, "eps": eps, "plan": plan, "configs": configs})
+        cases.append({"root": str(ctx.scratch / f"e2e{i}"), "fmt": fmt, "comp": comp, "eps": eps, "plan": plan, "configs": configs,
+                      # no checksum algorithm at all is a valid configuration: nothing may depend on the digests being distinct
+                      "hashes": [["sha256"], [], ["md5", "xxh64"]][(i // 3 + i) % 3]})
     return cases
 
 
@@ -110,6 +112,9 @@ def run(ctx):
     for i in range(0, len(cases), 6):
         recs += child.call("harness.checks.c02", "run_e2e", cases[i:i + 6], timeout=1500)
     nruns, distinct = 0, set()
+    for r in recs:
+        if r.get("enum_error"):
+            ctx.report({"kind": "listing-error"}, f"enumerating the shards of a valid dataset failed: {r['enum_error']}", {"case": r["case"]})
     for r in recs:
         for split, w in r["written"].items():
             if collections.Counter(r["enumerated"].get(split, [])) != collections.Counter(w):
